@@ -106,7 +106,7 @@ def run(run):
             proj = os.path.join(root, "proj")
             os.makedirs(os.path.join(proj, "src", "main"))
             g = G.Gen(random.Random(rng.random()), G.Opts(unique=True, classes=1, methods=rng.randint(2, 4), stmts=rng.randint(2, 5), depth=1))
-            ftext = g.file("F")[0]
+            ftext, fents = g.file("F")
             frel = os.path.join("src", "main", "F.java")
             fpath = os.path.join(proj, frel)
             try:
@@ -144,6 +144,14 @@ def run(run):
                             os.symlink(os.path.join(proj, "nowhere%d.java" % i), os.path.join(proj, d, "Broken%02d.java" % i))
                         os.symlink(os.path.join(proj, d), os.path.join(proj, d, "LinkToDir.java"))
                 contexts["many-faulty-siblings"] = many_faulty
+
+                def callers():
+                    # another file that calls F's methods by their bare names with the right number of arguments, and
+                    # declares methods of the names F calls: nothing derived for F may look at it
+                    decls = [(e["name"], len(e.get("paramTypes") or [])) for e in fents if e["kind"] == "method_declaration"]
+                    body = "".join("        %s(%s);\n" % (n, ", ".join("0" for _ in range(k))) for n, k in decls)
+                    write("src/other/Caller.java", "class Caller {\n    void callAll() {\n%s    }\n}\n" % body)
+                contexts["caller-of-F"] = callers
                 order = list(contexts)
                 rng.shuffle(order)
                 for name in order:
@@ -157,6 +165,10 @@ def run(run):
                             h = C.Harness()
                         continue
                     discovery_correspondence(run, h, d, root, proj, stats, False, dmism)
+                    ghosts = sorted({n["file"] for n in r["nodes"] if not os.path.isfile(n["file"])})
+                    if ghosts:
+                        run.violation("C08:entities-for-unreadable-entry", "entities are reported for %d entries that cannot be read (e.g. %s): their content can only come from another file" %
+                                      (len(ghosts), os.path.relpath(ghosts[0], proj)), dict(context=name, contexts_so_far=order[:order.index(name) + 1], F=ftext, ghosts=[os.path.relpath(x, proj) for x in ghosts[:5]]))
                     got = restricted(r, fpath)
                     if got != ref:
                         miss = set(ref[0]) - set(got[0])
